@@ -49,12 +49,18 @@ def languages():
 
 
 def default_alias(lang, kind):
+    """Alias used where the document does not name one: the first alias of the keyword table that is not '* '
+    and (step keywords) does not merely extend another step alias of the language - so that a document that
+    puts ONE alias under test is not disturbed by its other keywords.  Decided from the table alone."""
     tab = languages()[lang]
     if kind == "star":
         return u"* "
-    for a in tab[kind]:
-        if a != u"* ":
-            return a
+    if kind in STEP_KINDS:
+        every = [b for k in STEP_KINDS for b in tab[k] if b != u"* "]
+        for a in tab[kind]:
+            if a != u"* " and not any(b != a and a.lower().startswith(b.lower()) for b in every):
+                return a
+        return u"* " if u"* " in tab[kind] else tab[kind][0]
     return tab[kind][0]
 
 
@@ -114,7 +120,7 @@ def _tags(out, level, tags):
         if out.tagcomment:
             text += u"   # trailing comment @notatag"
         n = out.emit(level, text, "tag")
-        exp.extend({"name": t, "line": n} for t in g)
+        exp.extend({"kind": "tag", "name": t, "line": n} for t in g)
     return exp
 
 
@@ -124,11 +130,11 @@ def _unescape(cell):
 
 def _table(out, level, table, kind):
     headings, rows = table
-    exp = {"headings": [_unescape(c) for c in headings], "rows": []}
+    exp = {"kind": "table", "headings": [_unescape(c) for c in headings], "rows": []}
     exp["line"] = out.emit(level, u"| " + u" | ".join(headings) + u" |", "row", (kind, len(headings), 0))
     for i, r in enumerate(rows):
         n = out.emit(level, u"| " + u" | ".join(r) + u" |", "row", (kind, len(headings), i + 1))
-        exp["rows"].append({"cells": [_unescape(c) for c in r], "line": n})
+        exp["rows"].append({"kind": "row", "cells": [_unescape(c) for c in r], "line": n})
     return exp
 
 
@@ -181,7 +187,7 @@ def _steps(out, level, steps, ctx, owner):
                 out.emit(level + 1, c, "doc_line")
             out.emit(level + 1, quotes, "doc_close")
             out._in_doc = False
-            e["text"] = {"value": u"\n".join(content), "line": ln, "ctype": u"text/plain"}
+            e["text"] = {"kind": "text", "value": u"\n".join(content), "line": ln, "ctype": u"text/plain"}
         elif arg is not None and arg[0] == "table":
             e["table"] = _table(out, level + 1, (arg[1], arg[2]), ("step", owner))
         exp.append(e)
@@ -327,20 +333,20 @@ def render_tags(taglines, comments=()):
 
 # ---------------------------------------------------------------- extraction from the real model
 def _x_tags(tags):
-    return [{"name": u"%s" % t, "line": getattr(t, "line", None)} for t in tags]
+    return [{"kind": "tag", "name": u"%s" % t, "line": getattr(t, "line", None)} for t in tags]
 
 
 def _x_table(t):
     if t is None:
         return None
-    return {"headings": list(t.headings), "line": t.line,
-            "rows": [{"cells": list(r.cells), "line": r.line} for r in t.rows]}
+    return {"kind": "table", "headings": list(t.headings), "line": t.line,
+            "rows": [{"kind": "row", "cells": list(r.cells), "line": r.line} for r in t.rows]}
 
 
 def x_step(s):
     text = None
     if s.text is not None:
-        text = {"value": u"%s" % s.text, "line": getattr(s.text, "line", None),
+        text = {"kind": "text", "value": u"%s" % s.text, "line": getattr(s.text, "line", None),
                 "ctype": getattr(s.text, "content_type", None)}
     return {"kind": "step", "keyword": s.keyword, "type": s.step_type, "name": s.name, "line": s.line,
             "text": text, "table": _x_table(s.table)}
@@ -426,9 +432,24 @@ def _short(x):
     return x
 
 
-def path_class(path):
-    """path without list indexes: ('items', 1, 'steps', 0, 'type') -> 'items.steps.type'"""
-    return ".".join(str(p) for p in path if not isinstance(p, int))
+def path_class(path, tree=None):
+    """Clause name of a differing leaf: kind of the innermost element on the path + the field inside it, e.g.
+    ('items', 1, 'steps', 0, 'text', 'line') -> 'text.line'; ('items', 0, 'steps', 'len') -> 'scenario.steps.len'.
+    Independent of where in the document the element sits."""
+    node = tree
+    kind, rest = None, []
+    for p in path:
+        try:
+            node = node[p]
+        except Exception:
+            node = None
+        if isinstance(node, dict) and node.get("kind"):
+            kind, rest = node["kind"], []
+        elif not isinstance(p, int):
+            rest.append(str(p))
+    if kind is None and isinstance(tree, dict):
+        kind = tree.get("kind")
+    return ".".join([str(kind or "model")] + rest)
 
 
 def node_at(tree, path):
@@ -441,6 +462,20 @@ def node_at(tree, path):
         except Exception:
             break
         if isinstance(node, dict):
+            last = node
+    return last
+
+
+def step_node_at(tree, path):
+    """the enclosing step (for alias diagnosis)"""
+    node = tree
+    last = None
+    for p in path:
+        try:
+            node = node[p]
+        except Exception:
+            break
+        if isinstance(node, dict) and node.get("kind") == "step":
             last = node
     return last
 
